@@ -136,10 +136,9 @@ Qed.
 Lemma combine_map_same {A B C} (h : A -> B) (k : A -> C) l : combine (map h l) (map k l) = map (fun x => (h x, k x)) l.
 Proof. induction l as [|x l IH]; [reflexivity|]. cbn [map combine]. rewrite IH. reflexivity. Qed.
 
-Theorem level_path_length eps v ts ncols f lvl gt np m :
-  level_path Rops eps v ts ncols f lvl gt np = Ok m -> lp_length m = level_length_one Rops v ts f lvl.
+Lemma raw_length v ts f lvl r : level_path_raw Rops v ts f lvl = Ok r -> lr_length r = level_length_one Rops v ts f lvl.
 Proof.
-  unfold level_path. destruct (negb (Nat.eqb ncols 1)); [discriminate|].
+  unfold level_path_raw.
   set (cr := crossings_idx Rops f lvl ts 0).
   set (gg1 := map (fun '(_, (g0, g1, _)) => skey g0 g1) cr).
   set (gg2 := map (fun '(_, (g0, _, g2)) => skey g0 g2) cr).
@@ -162,9 +161,17 @@ Proof.
     - apply unique_pairs_in. apply in_or_app. right. unfold gg2. apply in_map_iff. exists (i, (g0, g1, g2)). split; [reflexivity|exact Hin].
     - apply unique_pairs_in. apply in_or_app. left. unfold gg1. apply in_map_iff. exists (i, (g0, g1, g2)). split; [reflexivity|exact Hin]. }
   destruct (reduce_edges_to_path edges) as [[path eidx]|e]; [|discriminate].
+  intros H. inversion H. cbn [lr_length]. exact HL.
+Qed.
+
+Theorem level_path_length eps v ts ncols f lvl gt np m :
+  level_path Rops eps v ts ncols f lvl gt np = Ok m -> lp_length m = level_length_one Rops v ts f lvl.
+Proof.
+  unfold level_path. destruct (negb (Nat.eqb ncols 1)); [discriminate|].
+  destruct (level_path_raw Rops v ts f lvl) as [r|e] eqn:E; [|discriminate]. apply raw_length in E.
   destruct gt.
-  - destruct (Nat.eqb np 0); [|discriminate]. intros H. inversion H. cbn [lp_length]. exact HL.
-  - intros H. inversion H. cbn [lp_length]. exact HL.
+  - destruct (Nat.eqb np 0); [|discriminate]. intros H. inversion H. cbn [lp_length]. exact E.
+  - intros H. inversion H. cbn [lp_length]. exact E.
 Qed.
 
 (* non-scalar input *)
@@ -172,3 +179,257 @@ Theorem level_path_non_scalar eps v ts ncols f lvl gt np : ncols <> 1%nat -> lev
 Proof. intros H. unfold level_path. apply Nat.eqb_neq in H. rewrite H. reflexivity. Qed.
 Theorem level_length_non_scalar v ts ncols f lvls : ncols <> 1%nat -> level_length Rops v ts ncols f lvls = Err ValueError.
 Proof. intros H. unfold level_length. apply Nat.eqb_neq in H. rewrite H. reflexivity. Qed.
+
+(* ---- 6. path order: the walk visits pairwise distinct nodes, consecutive nodes are joined by an edge, and the edge index
+        reported for a segment is an edge joining its two nodes *)
+Lemma memn_false_notin x l : memn x l = false -> ~ In x l.
+Proof.
+  unfold memn. intros H Hin. assert (E : existsb (Nat.eqb x) l = true) by (apply existsb_exists; exists x; split; [exact Hin|apply Nat.eqb_refl]).
+  rewrite E in H. discriminate.
+Qed.
+
+Lemma walk_props edges : forall fuel cur visited, In cur visited ->
+  let w := walk edges fuel cur visited in
+  NoDup w /\ (forall y, In y w -> ~ In y visited) /\
+  Forall (fun '(x, y) => In y (nbr_edges edges x)) (consecutive (cur :: w)).
+Proof.
+  induction fuel as [|fu IH]; intros cur visited Hcur; cbn [walk].
+  - cbn. split; [constructor|]. split; [intros y []|constructor].
+  - destruct (filter (fun y => negb (memn y visited)) (nbr_edges edges cur)) as [|y rest] eqn:F.
+    + cbn. split; [constructor|]. split; [intros y []|constructor].
+    + assert (Hy : In y (filter (fun y => negb (memn y visited)) (nbr_edges edges cur))) by (rewrite F; left; reflexivity).
+      apply filter_In in Hy. destruct Hy as [Hnb Hnv]. apply negb_true_iff in Hnv. apply memn_false_notin in Hnv.
+      specialize (IH y (y :: visited) (or_introl eq_refl)). cbv zeta in IH. destruct IH as (ND & Hvis & Hadj).
+      cbv zeta. split; [|split].
+      * constructor; [|exact ND]. intros Hin. apply (Hvis y Hin). left; reflexivity.
+      * intros z [<-|Hz]; [exact Hnv|]. intros Hzv. apply (Hvis z Hz). right. exact Hzv.
+      * cbn [consecutive]. constructor; [exact Hnb|exact Hadj].
+Qed.
+
+Lemma edge_between_spec edges x y : forall s i, edge_between edges x y s = Some i ->
+  (s <= i)%nat /\ (nth_error edges (i - s) = Some (x, y) \/ nth_error edges (i - s) = Some (y, x)).
+Proof.
+  induction edges as [|[a b] tl IH]; intros s i H; cbn [edge_between] in H; [discriminate|].
+  destruct ((Nat.eqb a x && Nat.eqb b y) || (Nat.eqb a y && Nat.eqb b x)) eqn:E.
+  - inversion H; subst. rewrite Nat.sub_diag. split; [lia|]. cbn [nth_error].
+    apply orb_true_iff in E. destruct E as [E|E]; apply andb_true_iff in E; destruct E as [E1 E2];
+      apply Nat.eqb_eq in E1, E2; subst; [left|right]; reflexivity.
+  - apply IH in H. destruct H as [H1 H2]. split; [lia|]. replace (i - s)%nat with (S (i - S s)) by lia. exact H2.
+Qed.
+Lemma edge_between_exists edges x y s : In y (nbr_edges edges x) -> exists i, edge_between edges x y s = Some i.
+Proof.
+  revert s. induction edges as [|[a b] tl IH]; intros s H; [destruct H|]. cbn [edge_between].
+  destruct ((Nat.eqb a x && Nat.eqb b y) || (Nat.eqb a y && Nat.eqb b x)) eqn:E; [eauto|].
+  apply IH. unfold nbr_edges in H. cbn [flat_map] in H. apply in_app_or in H. destruct H as [H|H]; [|exact H].
+  exfalso. apply orb_false_iff in E. destruct E as [E1 E2]. apply in_app_or in H. destruct H as [H|H].
+  - destruct (Nat.eqb a x) eqn:Ea; [|destruct H]. destruct H as [<-|[]]. rewrite Nat.eqb_refl in E1. discriminate.
+  - destruct (Nat.eqb b x) eqn:Eb; [|destruct H]. destruct H as [<-|[]]. apply Nat.eqb_eq in Eb. subst b.
+    rewrite !Nat.eqb_refl in E2. discriminate.
+Qed.
+
+Theorem reduce_path_spec edges path eidx : reduce_edges_to_path edges = Ok (path, eidx) ->
+  NoDup path /\ length path = n_nodes edges /\
+  Forall (fun '(x, y) => In y (nbr_edges edges x)) (consecutive path) /\
+  length eidx = length (consecutive path) /\
+  Forall (fun '((x, y), e) => nth_error edges e = Some (x, y) \/ nth_error edges e = Some (y, x)) (combine (consecutive path) eidx).
+Proof.
+  unfold reduce_edges_to_path.
+  destruct (filter (fun x => Nat.eqb (degree edges x) 1) (iota (n_nodes edges))) as [|s [|s2 [|s3 rest]]]; try discriminate.
+  pose proof (walk_props edges (n_nodes edges) s [s] (or_introl eq_refl)) as W. cbv zeta in W. destruct W as (ND & Hvis & Hadj).
+  remember (walk edges (n_nodes edges) s [s]) as w eqn:Ew. clear Ew.
+  remember (n_nodes edges) as n eqn:En. clear En.
+  remember (consecutive (s :: w)) as P eqn:EP.
+  destruct (negb (Nat.eqb (length (s :: w)) n)) eqn:EL; [discriminate|].
+  intros H. injection H as E1 E2. subst path eidx. rewrite <- !EP. clear EP.
+  apply negb_false_iff, Nat.eqb_eq in EL.
+  split; [constructor; [intros Hin; apply (Hvis s Hin); left; reflexivity|exact ND]|].
+  split; [exact EL|]. split; [exact Hadj|]. split; [rewrite map_length; reflexivity|].
+  induction P as [|[x y] P IH]; [constructor|].
+  inversion Hadj as [|? ? Hxy Hrest]; subst. cbn [map combine]. constructor; [|apply IH; exact Hrest].
+  destruct (edge_between_exists edges x y 0 Hxy) as (i & Hi). rewrite Hi.
+  apply edge_between_spec in Hi. rewrite Nat.sub_0_r in Hi. apply Hi.
+Qed.
+
+Lemma consecutive_map {A B} (h : A -> B) l : consecutive (map h l) = map (fun '(x, y) => (h x, h y)) (consecutive l).
+Proof.
+  induction l as [|a l IH]; [reflexivity|]. destruct l as [|b l]; [reflexivity|].
+  cbn [map consecutive] in *. rewrite IH. reflexivity.
+Qed.
+Lemma crossings_idx_in f lvl ts : forall s T g, In (T, g) (crossings_idx Rops f lvl ts s) ->
+  (s <= T)%nat /\ exists t, nth_error ts (T - s) = Some t /\ crossing Rops f lvl t = Some g.
+Proof.
+  induction ts as [|t ts IH]; intros s T g H; [destruct H|]. cbn [crossings_idx] in H.
+  destruct (crossing Rops f lvl t) as [g'|] eqn:E.
+  - destruct H as [H|H].
+    + inversion H; subst. split; [lia|]. exists t. rewrite Nat.sub_diag. split; [reflexivity|exact E].
+    + apply IH in H. destruct H as (H1 & t' & H2 & H3). split; [lia|]. exists t'. replace (T - s)%nat with (S (T - S s)) by lia. split; assumption.
+  - apply IH in H. destruct H as (H1 & t' & H2 & H3). split; [lia|]. exists t'. replace (T - s)%nat with (S (T - S s)) by lia. split; assumption.
+Qed.
+
+(* in path order, every segment joins the two crossing points of one crossed mesh triangle, and that triangle is the reported one *)
+Theorem raw_segments v ts f lvl r : level_path_raw Rops v ts f lvl = Ok r ->
+  length (lr_tria r) = length (consecutive (lr_points r)) /\
+  Forall (fun '((a, b), T) => exists t g0 g1 g2,
+            nth_error ts T = Some t /\ crossing Rops f lvl t = Some (g0, g1, g2) /\
+            ((a = ept v f lvl g0 g1 /\ b = ept v f lvl g0 g2) \/ (a = ept v f lvl g0 g2 /\ b = ept v f lvl g0 g1)))
+         (combine (consecutive (lr_points r)) (lr_tria r)).
+Proof.
+  unfold level_path_raw.
+  set (cr := crossings_idx Rops f lvl ts 0).
+  set (gg1 := map (fun '(_, (g0, g1, _)) => skey g0 g1) cr).
+  set (gg2 := map (fun '(_, (g0, _, g2)) => skey g0 g2) cr).
+  set (uniq := unique_pairs (gg1 ++ gg2)).
+  set (pt := fun '(a, b) => ept v f lvl a b).
+  set (edges := map (fun '(k1, k2) => (idx_or0 k1 uniq, idx_or0 k2 uniq)) (combine gg1 gg2)).
+  destruct (reduce_edges_to_path edges) as [[path eidx]|e] eqn:ER; [|discriminate].
+  apply reduce_path_spec in ER. destruct ER as (_ & _ & _ & Hlen & Hfor).
+  intros H. inversion H; subst r. clear H. cbn [lr_points lr_tria].
+  rewrite consecutive_map, !map_length. split; [exact Hlen|].
+  (* edges as a map over the crossings *)
+  assert (EE : edges = map (fun c : nat * (nat * nat * nat) => let '(_, (g0, g1, g2)) := c in
+                             (idx_or0 (skey g0 g1) uniq, idx_or0 (skey g0 g2) uniq)) cr).
+  { unfold edges, gg1, gg2. rewrite combine_map_same, map_map. apply map_ext. intros [i [[g0 g1] g2]]. reflexivity. }
+  remember (consecutive path) as P eqn:EP. clear EP. revert eidx Hlen Hfor.
+  induction P as [|[x y] P IH]; intros eidx Hlen Hfor; [constructor|].
+  destruct eidx as [|e eidx]; [discriminate|]. cbn [map combine] in *. inversion Hfor as [|? ? Hxy Hrest]; subst.
+  constructor; [|apply IH; [cbn in Hlen; lia|exact Hrest]].
+  assert (Hcase : exists i g0 g1 g2, nth_error cr e = Some (i, (g0, g1, g2)) /\
+            ((x = idx_or0 (skey g0 g1) uniq /\ y = idx_or0 (skey g0 g2) uniq) \/ (y = idx_or0 (skey g0 g1) uniq /\ x = idx_or0 (skey g0 g2) uniq))).
+  { rewrite EE in Hxy. rewrite !nth_error_map in Hxy. destruct (nth_error cr e) as [[i [[g0 g1] g2]]|] eqn:En.
+    - exists i, g0, g1, g2. split; [reflexivity|]. cbn [option_map] in Hxy. destruct Hxy as [Hq|Hq]; inversion Hq; subst; [left|right]; split; reflexivity.
+    - cbn in Hxy. destruct Hxy; discriminate. }
+  destruct Hcase as (i & g0 & g1 & g2 & En & Hxy').
+  assert (Hin : In (i, (g0, g1, g2)) cr) by (eapply nth_error_In; exact En).
+  destruct (crossings_idx_in f lvl ts 0 i (g0, g1, g2) Hin) as (_ & t & Ht & Hc). rewrite Nat.sub_0_r in Ht.
+  pose proof (crossing_some _ _ _ _ _ _ Hc) as (_ & H12 & H01).
+  assert (H02 : ab f lvl g0 <> ab f lvl g2) by (rewrite <- H12; exact H01).
+  assert (P1 : getv Rops (map pt uniq) (idx_or0 (skey g0 g1) uniq) = ept v f lvl g0 g1).
+  { rewrite lookup_point.
+    - unfold pt. apply skey_point. apply (sides_differ f lvl). exact H01.
+    - apply unique_pairs_in. apply in_or_app. left. unfold gg1. apply in_map_iff. exists (i, (g0, g1, g2)). split; [reflexivity|exact Hin]. }
+  assert (P2 : getv Rops (map pt uniq) (idx_or0 (skey g0 g2) uniq) = ept v f lvl g0 g2).
+  { rewrite lookup_point.
+    - unfold pt. apply skey_point. apply (sides_differ f lvl). exact H02.
+    - apply unique_pairs_in. apply in_or_app. right. unfold gg2. apply in_map_iff. exists (i, (g0, g1, g2)). split; [reflexivity|exact Hin]. }
+  assert (Hn : fst (nth e cr (0, (0, 0, 0)))%nat = i) by (rewrite (nth_error_nth cr e _ En); reflexivity).
+  rewrite Hn. exists t, g0, g1, g2. split; [exact Ht|]. split; [exact Hc|].
+  destruct Hxy' as [[-> ->]|[-> ->]]; [left|right]; split; assumption.
+Qed.
+(* ---- 7. resampling keeps the end points and returns n points *)
+Definition seglen (a b : V3) : R := sqrt (norm2 Rops (subR b a)).
+Fixpoint dl (a : R) (q : V3) (rest : list V3) : list R :=
+  match rest with [] => [] | q1 :: r => (a + seglen q q1) :: dl (a + seglen q q1) q1 r end.
+Lemma cumsum_dl a q rest :
+  cumsum Rops a (map (fun '(x, y) => sqrtK Rops (norm2 Rops (vsub Rops y x))) (consecutive (q :: rest))) = dl a q rest.
+Proof.
+  revert a q. induction rest as [|q1 r IH]; intros a q; [reflexivity|].
+  cbn [consecutive map cumsum dl]. cbn [add sqrtK Rops]. fold (seglen q q1). f_equal. apply IH.
+Qed.
+Lemma seglen_nonneg a b : 0 <= seglen a b. Proof. apply sqrt_pos. Qed.
+Lemma seglen_zero a b : seglen a b = 0 -> b = a.
+Proof.
+  unfold seglen. intros H. apply sqrt_eq_0 in H; [|apply dot_self_nonneg]. r3 a; r3 b.
+  unfold norm2, dot, vsub, vx, vy, vz in H. cbn [fst snd add sub mul Rops] in H.
+  pose proof (Rle_0_sqr (x0 - x)) as S1. pose proof (Rle_0_sqr (y0 - y)) as S2. pose proof (Rle_0_sqr (z0 - z)) as S3. unfold Rsqr in *.
+  assert (E1 : (x0 - x) * (x0 - x) = 0) by lra. assert (E2 : (y0 - y) * (y0 - y) = 0) by lra. assert (E3 : (z0 - z) * (z0 - z) = 0) by lra.
+  apply Rmult_integral in E1, E2, E3.
+  f_equal; [f_equal|]; [destruct E1|destruct E2|destruct E3]; lra.
+Qed.
+
+Lemma interp1_cons2 x0 x1 xt f0 f1 ft x :
+  interp1 Rops (x0 :: x1 :: xt) (f0 :: f1 :: ft) x =
+  if Rltb x x1 then (if Rleb x x0 then f0 else (f1 - f0) / (x1 - x0) * (x - x0) + f0) else interp1 Rops (x1 :: xt) (f1 :: ft) x.
+Proof. reflexivity. Qed.
+
+(* first point: interpolation at the start of the parameter range gives the first vertex *)
+Lemma interp_first (c : V3 -> R) : forall rest q a, interp1 Rops (a :: dl a q rest) (map c (q :: rest)) a = c q.
+Proof.
+  induction rest as [|q1 r IH]; intros q a; [reflexivity|].
+  cbn [dl map]. rewrite interp1_cons2.
+  destruct (Rltb a (a + seglen q q1)) eqn:E.
+  - unfold Rleb. destruct (Rle_dec a a) as [_|n]; [reflexivity|exfalso; apply n; lra].
+  - apply Rltb_false in E. pose proof (seglen_nonneg q q1) as Hp.
+    assert (Hz : seglen q q1 = 0) by lra. rewrite Hz, Rplus_0_r.
+    specialize (IH q1 a). cbn [map] in IH. rewrite IH. apply seglen_zero in Hz. rewrite Hz. reflexivity.
+Qed.
+
+(* last point: interpolation at the end of a non-decreasing parameter list gives the last value *)
+Fixpoint nondec (l : list R) : Prop := match l with x :: ((y :: _) as tl) => x <= y /\ nondec tl | _ => True end.
+Lemma nondec_last_ge l x : nondec (x :: l) -> x <= last (x :: l) 0.
+Proof.
+  revert x. induction l as [|y l IH]; intros x H; [cbn; lra|]. cbn [nondec] in H. destruct H as [H1 H2].
+  specialize (IH y H2). change (last (x :: y :: l) 0) with (last (y :: l) 0). lra.
+Qed.
+Lemma interp_last : forall d fp, nondec d -> length fp = length d -> d <> [] -> interp1 Rops d fp (last d 0) = last fp 0.
+Proof.
+  induction d as [|x0 d IH]; intros fp Hn Hl Hne; [contradiction|].
+  destruct fp as [|f0 fp]; [discriminate|]. destruct d as [|x1 d].
+  - destruct fp; [reflexivity|discriminate].
+  - destruct fp as [|f1 fp]; [discriminate|].
+    change (last (x0 :: x1 :: d) 0) with (last (x1 :: d) 0). change (last (f0 :: f1 :: fp) 0) with (last (f1 :: fp) 0).
+    cbn [nondec] in Hn. destruct Hn as [_ Hn].
+    rewrite interp1_cons2. pose proof (nondec_last_ge d x1 Hn) as Hge.
+    destruct (Rltb (last (x1 :: d) 0) x1) eqn:E; [apply Rltb_true in E; lra|].
+    apply IH; [exact Hn|cbn in *; lia|discriminate].
+Qed.
+Lemma dl_nondec : forall rest q a, nondec (a :: dl a q rest).
+Proof.
+  induction rest as [|q1 r IH]; intros q a; [exact I|]. cbn [dl nondec]. split; [pose proof (seglen_nonneg q q1); lra|apply IH].
+Qed.
+Lemma dl_length rest : forall q a, length (dl a q rest) = length rest.
+Proof. induction rest as [|q1 r IH]; intros q a; [reflexivity|]. cbn [dl length]. rewrite IH. reflexivity. Qed.
+
+Lemma linspace0_shape stop m : exists mid, linspace0 Rops stop (S (S m)) = 0 :: mid ++ [stop] /\ length mid = m.
+Proof.
+  unfold linspace0. set (step := div Rops stop (ofZ Rops (Z.of_nat (S m)))).
+  unfold iota. cbn [iota_from map app]. exists (map (fun i => add Rops (mul Rops (ofZ Rops (Z.of_nat i)) step) (zero Rops)) (iota_from 1 m)).
+  split.
+  - cbn [ofZ add mul zero Rops Z.of_nat]. f_equal. ring.
+  - rewrite map_length. clear. generalize 1%nat. induction m as [|m IH]; intros s; [reflexivity|]. cbn [iota_from length]. rewrite IH. reflexivity.
+Qed.
+
+Lemma last_map_ne {A B} (h : A -> B) (l : list A) a (da : A) (db : B) : last (map h (a :: l)) db = h (last (a :: l) da).
+Proof. revert a. induction l as [|b l IH]; intros a; [reflexivity|]. change (last (map h (a :: b :: l)) db) with (last (map h (b :: l)) db). change (last (a :: b :: l) da) with (last (b :: l) da). apply IH. Qed.
+Lemma last_snoc {A} (l : list A) x d : last (l ++ [x]) d = x.
+Proof. induction l as [|a l IH]; [reflexivity|]. cbn [app]. destruct (l ++ [x]) eqn:E; [destruct l; discriminate|]. exact IH. Qed.
+
+Theorem resample_endpoints q rest n : (2 <= n)%nat ->
+  let r := resample_polygon Rops (q :: rest) n in
+  length r = n /\ hd (zero3 Rops) r = q /\ last r (zero3 Rops) = last (q :: rest) (zero3 Rops).
+Proof.
+  intros Hn. destruct n as [|[|m]]; try lia. cbv zeta.
+  unfold resample_polygon. cbn [cumsum]. cbn [add zero Rops]. rewrite Rplus_0_l, cumsum_dl.
+  set (d := 0 :: dl 0 q rest).
+  destruct (linspace0_shape (last d 0) m) as (mid & E & L). cbn [zero Rops]. rewrite E. clear E.
+  set (F := fun x : R => (interp1 Rops d (map (vx (K:=R)) (q :: rest)) x, interp1 Rops d (map (vy (K:=R)) (q :: rest)) x,
+                          interp1 Rops d (map (vz (K:=R)) (q :: rest)) x)).
+  assert (Hd : nondec d) by apply dl_nondec.
+  assert (Hl : forall c : V3 -> R, length (map c (q :: rest)) = length d).
+  { intros c. unfold d. cbn [length map]. rewrite map_length, dl_length. reflexivity. }
+  split; [|split].
+  - cbn [map length]. rewrite map_length, app_length, L. cbn [length]. lia.
+  - cbn [map hd]. unfold F, d. rewrite !interp_first. destruct q as [[x y] z]. reflexivity.
+  - change (map F (0 :: mid ++ [last d 0])) with (F 0 :: map F (mid ++ [last d 0])).
+    rewrite map_app. cbn [map].
+    assert (LL : forall (a : V3) l x, last (a :: l ++ [x]) (zero3 Rops) = x).
+    { intros a l x. change (a :: l ++ [x]) with ((a :: l) ++ [x]). apply last_snoc. }
+    rewrite LL. unfold F.
+    rewrite !interp_last by (try exact Hd; try apply Hl; try discriminate).
+    rewrite (last_map_ne (vx (K:=R)) rest q (zero3 Rops) 0), (last_map_ne (vy (K:=R)) rest q (zero3 Rops) 0),
+            (last_map_ne (vz (K:=R)) rest q (zero3 Rops) 0).
+    destruct (last (q :: rest) (zero3 Rops)) as [[x y] z]. reflexivity.
+Qed.
+
+(* three rounds, as in __iterative_resample_polygon *)
+Theorem iterative_resample_endpoints q rest n : (2 <= n)%nat ->
+  let r := iterative_resample Rops (q :: rest) n in
+  length r = n /\ hd (zero3 Rops) r = q /\ last r (zero3 Rops) = last (q :: rest) (zero3 Rops).
+Proof.
+  intros Hn. unfold iterative_resample. cbv zeta.
+  destruct (resample_endpoints q rest n Hn) as (L1 & H1 & T1). cbv zeta in *.
+  destruct (resample_polygon Rops (q :: rest) n) as [|q1 r1] eqn:E1; [cbn in L1; lia|].
+  destruct (resample_endpoints q1 r1 n Hn) as (L2 & H2 & T2). cbv zeta in *.
+  destruct (resample_polygon Rops (q1 :: r1) n) as [|q2 r2] eqn:E2; [cbn in L2; lia|].
+  destruct (resample_endpoints q2 r2 n Hn) as (L3 & H3 & T3). cbv zeta in *.
+  cbn [hd] in *. subst. split; [exact L3|]. split; [exact H3|]. rewrite T3, T2, T1. reflexivity.
+Qed.
